@@ -2310,6 +2310,11 @@ function setOwnProperty(target: any, key: unknown, value: unknown): void {
 // A declared property named like a member of Object.prototype ("toString", "constructor", ...) that
 // the value does not carry itself is absent: what a plain read finds is the inherited method.
 function readDeclaredProperty(input: any, k: string): unknown {
+  // ("__proto__" read from an object that does not carry the key itself is the inherited accessor:
+  // it answers with the object's prototype)
+  if (k === "__proto__" && !Object.prototype.hasOwnProperty.call(input, k)) {
+    return undefined;
+  }
   const v = input[k];
   if (
     v !== undefined &&
